@@ -17,8 +17,8 @@ Open Scope Z_scope.
 Record block := mkB {
   b_id : Z; b_mint : Z; b_maxt : Z; b_size : Z; b_del : bool; b_parents : list Z }.
 
-(* Options.RetentionDuration, Options.MaxBytes, Options.MaxPercentage = c_pnum / 2^c_pexp
-   (a dyadic rational, the float64 values the harness generates), fsSizeFunc(dir),
+(* Options.RetentionDuration, Options.MaxBytes, Options.MaxPercentage = c_pnum * 2^c_pexp
+   (the float64 value, significand and binary exponent), fsSizeFunc(dir),
    Head().Size() (WAL + WBL + head chunk files). *)
 Record cfg := mkCfg {
   c_dur : Z; c_maxb : Z; c_pnum : Z; c_pexp : Z; c_disk : Z; c_head : Z }.
@@ -42,9 +42,29 @@ Definition beyond_time (c : cfg) (bs : list block) : list Z :=
       else map b_id (drop_until (fun b => c_dur c <=? sub64 (b_maxt b0) (b_maxt b)) rest)
   end.
 
-(* int64(float64(diskSize) * maxPercentage / 100), exact for the dyadic percentages and disk
-   sizes the harness generates (product < 2^53, see notes): truncation of the exact quotient *)
-Definition pct_to_bytes (disk pnum pexp : Z) : Z := Z.quot (disk * pnum) (2 ^ pexp * 100).
+(* float64 arithmetic of `int64(float64(diskSize) * maxPercentage / 100)`, step by step:
+   rn53 n d = the positive rational n/d rounded to nearest-even on a 53-bit significand, as
+   (m, e) with value m * 2^e (normal range only; the values here are far from under/overflow) *)
+Definition scale_q (n d e : Z) : Z * Z := if 0 <=? e then (n, d * 2 ^ e) else (n * 2 ^ (- e), d).
+Definition rn53 (n d : Z) : Z * Z :=
+  if (n <=? 0) || (d <=? 0) then (0, 0) else
+  let L := Z.log2 n - Z.log2 d in
+  let e1 := L - 52 in
+  let '(N1, D1) := scale_q n d e1 in
+  let e := if 2 ^ 52 <=? N1 / D1 then e1 else e1 - 1 in
+  let '(N, D) := scale_q n d e in
+  let fl := N / D in let r := N mod D in
+  let m := if (D <? 2 * r) || ((D =? 2 * r) && Z.odd fl) then fl + 1 else fl in
+  (m, e).
+
+(* disk > 0, percentage = pm * 2^pe > 0 (pm the 53-bit significand of the float64 option) *)
+Definition pct_to_bytes (disk pm pe : Z) : Z :=
+  let '(m1, e1) := rn53 disk 1 in                       (* float64(diskSize) *)
+  let '(m2, e2) := let e := e1 + pe in                  (* ... * maxPercentage *)
+                   if 0 <=? e then rn53 (m1 * pm * 2 ^ e) 1 else rn53 (m1 * pm) (2 ^ (- e)) in
+  let '(m3, e3) := if 0 <=? e2 then rn53 (m2 * 2 ^ e2) 100
+                   else rn53 m2 (100 * 2 ^ (- e2)) in   (* ... / 100 *)
+  if 0 <=? e3 then m3 * 2 ^ e3 else m3 / 2 ^ (- e3).    (* int64(...) truncates; value < 2^63 *)
 
 Definition eff_max_bytes (c : cfg) : Z :=
   if 0 <? c_pnum c then
@@ -69,6 +89,11 @@ Definition beyond_size (c : cfg) (bs : list block) : list Z :=
 (* deletableBlocks after its sort: a set of ULIDs, represented as a list (duplicates possible) *)
 Definition deletable_ids (c : cfg) (order : list block) : list Z :=
   map b_id (filter b_del order) ++ beyond_time c order ++ beyond_size c order.
+
+(* helpers shared by the specification side *)
+Definition newest (bs : list block) : Z := fold_right (fun b m => Z.max (b_maxt b) m) minInt64 bs.
+Definition oldest (bs : list block) : Z := fold_right (fun b m => Z.min (b_maxt b) m) maxInt64 bs.
+Definition sum_sizes (bs : list block) : Z := fold_right (fun b s => b_size b + s) 0 bs.
 
 (* ---- what the sort must have produced ---- *)
 Fixpoint sorted_desc (bs : list block) : bool :=
